@@ -46,6 +46,9 @@ pub struct Cfg {
     pub filters: Vec<String>,
     /// actions executed when the world is created (not counted as depth)
     pub prelude: Vec<Act>,
+    /// pad publish payloads to this many bytes (0: short payloads)
+    #[serde(default)]
+    pub pad: usize,
 }
 
 impl Cfg {
@@ -64,6 +67,7 @@ impl Cfg {
             topics: vec![],
             filters: vec![],
             prelude: vec![],
+            pad: 0,
         }
     }
     pub fn prop_static(&self) -> &'static str {
@@ -103,6 +107,8 @@ pub enum Act {
     Pub { c: u8, t: u8, qos: u8, retain: bool, empty: bool, props: u8 },
     /// release the oldest QoS2 publish whose PUBREC arrived
     Rel { c: u8 },
+    /// the same release, but the PUBREL carries MQTT 5 properties
+    RelProps { c: u8 },
     Burst { c: u8, t: u8, qos: u8, n: u16 },
     /// acknowledge the oldest received, unacknowledged forward (PUBACK or PUBREC)
     Ack { c: u8 },
@@ -213,6 +219,7 @@ pub struct RouterWorld {
     pub max_conn: usize,
     /// late Disconnect events delivered for a slot that had a new occupant: (slot, whose)
     pub stale_disc: Vec<(usize, String)>,
+    pub pad: usize,
 }
 
 fn router_config(cfg: &Cfg) -> RouterConfig {
@@ -237,11 +244,55 @@ impl RouterWorld {
         self.pending_viols.push(Violation::new(p, code, detail));
     }
 
-    pub fn payload_for(tag: u32, empty: bool) -> Vec<u8> {
+    pub fn payload_for(tag: u32, empty: bool, pad: usize) -> Vec<u8> {
         if empty {
             vec![]
         } else {
-            format!("m{tag}").into_bytes()
+            // padded payloads make 1 KB commit-log segments rotate after one or two messages
+            let mut v = format!("m{tag}").into_bytes();
+            if v.len() < pad {
+                v.resize(pad, b'.');
+            }
+            v
+        }
+    }
+
+    /// Retention proviso: a subscription whose read position points into a segment the log
+    /// has already discarded lost messages through retention, not through a routing fault.
+    /// Completeness is waived for it (order, duplicates and spurious deliveries still count).
+    pub fn update_lag(&mut self) {
+        #[cfg(feature = "snapshot")]
+        {
+            let Some(r) = self.router.as_ref() else { return };
+            let snap = r.verif_snapshot();
+            for f in snap.filters.iter() {
+                if f.head == 0 {
+                    continue;
+                }
+                // connection id -> lagging on this filter?
+                let mut lagging: Vec<usize> = vec![];
+                for c in snap.connections.iter() {
+                    let behind = c.requests.iter().any(|q| q.1 == f.idx && q.3 .0 < f.head)
+                        || c.inflight.iter().any(|e| e.1 == f.idx && e.2.is_some_and(|cur| cur.0 < f.head));
+                    if behind {
+                        lagging.push(c.id);
+                    }
+                }
+                for (id, q) in f.waiters.iter() {
+                    if q.3 .0 < f.head {
+                        lagging.push(*id);
+                    }
+                }
+                let mut names: Vec<String> = vec![];
+                for g in snap.graveyard.iter() {
+                    if let Some((reqs, _, _)) = &g.session {
+                        if reqs.iter().any(|q| q.1 == f.idx && q.3 .0 < f.head) {
+                            names.push(g.client_id.clone());
+                        }
+                    }
+                }
+                self.model.mark_lagged(&f.filter, &lagging, &names);
+            }
         }
     }
 
@@ -857,6 +908,7 @@ impl World for RouterWorld {
             prop: cfg.prop_static(),
             max_conn: cfg.max_conn,
             stale_disc: vec![],
+            pad: cfg.pad,
         };
         for a in cfg.prelude.iter() {
             props::apply(&mut w, cfg, a);
@@ -889,6 +941,9 @@ impl World for RouterWorld {
         props::apply(self, cfg, a);
         if !self.manual {
             self.settle(true);
+        }
+        if self.pad > 0 {
+            self.update_lag();
         }
         if let Some((name, id, Some(ev))) = late {
             if !self.manual {
